@@ -30,6 +30,22 @@ macro_rules! backend_mod {
                 use super::*;
                 include!("props/c11.rs");
             }
+            pub mod core_ops {
+                use super::*;
+                include!("core_ops.rs");
+            }
+            pub mod c11core {
+                use super::*;
+                include!("props/c11core.rs");
+            }
+            pub mod c12core {
+                use super::*;
+                include!("props/c12core.rs");
+            }
+            pub mod c17core {
+                use super::*;
+                include!("props/c17core.rs");
+            }
             pub mod c12 {
                 use super::*;
                 include!("props/c12.rs");
@@ -279,6 +295,9 @@ fn main() {
         "c10" => c10::run(&cfg, &mut rep),
         "c11" => on_backends!(&cfg, &mut rep, c11),
         "c12" => on_backends!(&cfg, &mut rep, c12),
+        "c11core" => on_backends!(&cfg, &mut rep, c11core),
+        "c12core" => on_backends!(&cfg, &mut rep, c12core),
+        "c17core" => on_backends!(&cfg, &mut rep, c17core),
         "c02" => on_backends!(&cfg, &mut rep, c02),
         #[cfg(feature = "hooks")]
         "c03" => on_backends!(&cfg, &mut rep, c03),
